@@ -110,6 +110,13 @@ def oksMatrix (exp : R → R) (coco : Bool) (eps : R) (sds : List R)
     (gts : List (Option R × List (Pt R))) (prs : List (List (Pt R))) : List (List (Option R)) :=
   gts.map (fun g => prs.map (fun p => oksPair exp coco eps sds g.1 g.2 p))
 
+/-- the code as it is on the pinned tree: `ks[np.expand_dims(missing_gt, 1)] = 0` indexes a
+`(n_gt, n_pr, n_nodes)` array with a `(n_gt, 1, n_nodes)` boolean mask, which numpy rejects
+(`IndexError`) unless `n_pr = 1` (`none` = raise; F-C15b) -/
+def oksMatrixAsIs (exp : R → R) (coco : Bool) (eps : R) (sds : List R)
+    (gts : List (Option R × List (Pt R))) (prs : List (List (Pt R))) : Option (List (List (Option R))) :=
+  if prs.length = 1 then some (oksMatrix exp coco eps sds gts prs) else none
+
 /-! ## `match_instances` -/
 
 /-- stable insertion for a descending sort (`np.argsort(-scores, kind="mergesort")`) -/
@@ -222,10 +229,14 @@ def flatten (m : List (List R)) : List (R × Nat × Nat) :=
 def greedyMatching [LT R] [DecidableLT R] (m : List (List R)) : List (Nat × Nat) :=
   greedyLoop (((flatten m).foldr insAsc []).map (·.2))
 
+def nodupB : List Nat → Bool
+  | [] => true
+  | x :: t => !t.contains x && nodupB t
+
 /-- checker for an assignment returned by `linear_sum_assignment` (the solver itself is a
 parameter, see `LsaSpec` in Props): rows/cols in range, pairwise distinct, `min n m` pairs -/
 def isAssignment (n m : Nat) (a : List (Nat × Nat)) : Bool :=
-  a.all (fun e => e.1 < n && e.2 < m) && (a.map (·.1)).eraseDups.length == a.length
-    && (a.map (·.2)).eraseDups.length == a.length && a.length == min n m
+  a.all (fun e => e.1 < n && e.2 < m) && nodupB (a.map (·.1)) && nodupB (a.map (·.2))
+    && a.length == min n m
 
 end SleapVerif.Oks
